@@ -183,13 +183,6 @@ func (a *UDPAssociation) ReadLoop() {
 			continue
 		}
 
-		// Update actual client address on first datagram
-		a.mu.Lock()
-		if a.ActualClientAddr == nil {
-			a.ActualClientAddr = clientAddr
-		}
-		a.mu.Unlock()
-
 		// Verify client address if expected address was specified
 		a.mu.RLock()
 		expected := a.ExpectedClientAddr
@@ -201,6 +194,14 @@ func (a *UDPAssociation) ReadLoop() {
 				continue
 			}
 		}
+
+		// Remember the client address on the first accepted datagram (only after
+		// the filter above: a rejected sender must not become the reply target)
+		a.mu.Lock()
+		if a.ActualClientAddr == nil {
+			a.ActualClientAddr = clientAddr
+		}
+		a.mu.Unlock()
 
 		// Parse SOCKS5 UDP header
 		header, payload, err := ParseUDPHeader(buf[:n])
